@@ -50,14 +50,14 @@ package tex
 //@ func JsByte.FromString
 //@   requires i != nil
 //@   ensures #empty len(strBuf) == 0 ==> result == nil && len(deref(i)) == 0
-//@   ensures #exact result == nil && len(strBuf) > 0 ==> len(deref(i)) == splitcount(strBuf, "/") && forall j int :: { deref(i)[j] } 0 <= j && j < len(deref(i)) ==> isint(splitpart(strBuf, "/", j)) && 0 <= ival(splitpart(strBuf, "/", j)) && ival(splitpart(strBuf, "/", j)) <= 255 && deref(i)[j] == uint8(ival(splitpart(strBuf, "/", j)))
+//@   ensures #exact result == nil && len(strBuf) > 0 ==> len(deref(i)) == splitcount(strBuf, "/") && forall j int :: { splitpart(strBuf, "/", j) } 0 <= j && j < len(deref(i)) ==> isint(splitpart(strBuf, "/", j)) && 0 <= ival(splitpart(strBuf, "/", j)) && ival(splitpart(strBuf, "/", j)) <= 255 && deref(i)[j] == uint8(ival(splitpart(strBuf, "/", j)))
 //@   modifies deref(i), region($alloc)
 //@   loop 1
 //@     invariant 0 <= j && j <= size && size == len(strNums) && size == splitcount(strBuf, "/") && len(deref(i)) == size && isfresh(deref(i)) && (forall k int :: { strNums[k] } 0 <= k && k < size ==> strNums[k] == splitpart(strBuf, "/", k))
-//@     invariant #done forall k int :: { deref(i)[k] } 0 <= k && k < j ==> isint(splitpart(strBuf, "/", k)) && 0 <= ival(splitpart(strBuf, "/", k)) && ival(splitpart(strBuf, "/", k)) <= 255 && deref(i)[k] == uint8(ival(splitpart(strBuf, "/", k)))
+//@     invariant #done forall k int :: { splitpart(strBuf, "/", k) } 0 <= k && k < j ==> isint(splitpart(strBuf, "/", k)) && 0 <= ival(splitpart(strBuf, "/", k)) && ival(splitpart(strBuf, "/", k)) <= 255 && deref(i)[k] == uint8(ival(splitpart(strBuf, "/", k)))
 //
 //@ func JsByte.UnmarshalJSON
 //@   requires token(b) && i != nil && ErrInvalidByteJs != nil
 //@   ensures #quoted result == nil ==> quoted(b)
-//@   ensures #exact result == nil && len(b) > 2 ==> len(deref(i)) == splitcount(inner(b), "/") && forall j int :: { deref(i)[j] } 0 <= j && j < len(deref(i)) ==> isint(splitpart(inner(b), "/", j)) && 0 <= ival(splitpart(inner(b), "/", j)) && ival(splitpart(inner(b), "/", j)) <= 255 && deref(i)[j] == uint8(ival(splitpart(inner(b), "/", j)))
+//@   ensures #exact result == nil && len(b) > 2 ==> len(deref(i)) == splitcount(inner(b), "/") && forall j int :: { splitpart(inner(b), "/", j) } 0 <= j && j < len(deref(i)) ==> isint(splitpart(inner(b), "/", j)) && 0 <= ival(splitpart(inner(b), "/", j)) && ival(splitpart(inner(b), "/", j)) <= 255 && deref(i)[j] == uint8(ival(splitpart(inner(b), "/", j)))
 //@   modifies deref(i), region($alloc)
